@@ -390,6 +390,9 @@ class Reshape(ArrayExpr):
                 new_out_shape.append(stop - start)
 
         new_out_shape = tuple(new_out_shape)
+        if not new_out_shape:
+            # The result would be 0-d (x.reshape(12)[3] over a (12, 1) input); same limitation.
+            return None
 
         # Apply slice to input, then reshape
         sliced_input = new_collection(self.array)[tuple(input_index)]
